@@ -61,11 +61,19 @@ def run_replay_file(prop, path, runners=None):
     if runners is not None:
         if hc not in runners:
             runners[hc] = core.ProgramRunner(prop, hc)
-        rep = runners[hc].run(rec['program'])
+        rep = runners[hc].run(rec['program'], timeout_is_violation=True)
+        if rep.get('digest') == 'timeout':
+            # confirm in a fresh worker: only a program that never comes back twice counts
+            runners.pop(hc).close()
+            again = core.ProgramRunner(prop, hc)
+            try:
+                rep = again.run(rec['program'], timeout_is_violation=True)
+            finally:
+                again.close()
         return rec, rep.get('violation'), rep.get('digest')
     runner = core.ProgramRunner(prop, hc)
     try:
-        rep = runner.run(rec['program'])
+        rep = runner.run(rec['program'], timeout_is_violation=True)
     finally:
         runner.close()
     return rec, rep.get('violation'), rep.get('digest')
@@ -174,6 +182,26 @@ def cmd_check(prop, tier, n_runs=None, jobs=None):
         if os.environ.get('VERIF_DEBUG'):
             sys.stderr.write(e + '\n')
 
+    # 2b. programs whose child never came back: re-execute twice in fresh workers; if it never
+    #     finishes there either, the code under test does not terminate on it -- a violation
+    confirmed_timeouts = []
+    for t in sorted(batch.timeouts, key=lambda t: t['run'])[:2]:
+        ok = 0
+        for _ in range(2):
+            r = core.ProgramRunner(prop, t['hashclass'])
+            try:
+                rep = r.run(t['program'], timeout_is_violation=True)
+            except core.HarnessError:
+                rep = {}
+            finally:
+                r.close()
+            if rep.get('digest') == 'timeout':
+                ok += 1
+        if ok == 2:
+            v = dict(rep['violation'], run=t['run'], hashclass=t['hashclass'], program=t['program'])
+            confirmed_timeouts.append(v)
+            break
+
     # 3. determinism sample: first 32 runs again, in fresh workers
     det = {'runs_reexecuted': 0, 'mismatches': 0}
     if batch.completed and not os.environ.get('VERIF_NO_DETCHECK'):
@@ -194,6 +222,15 @@ def cmd_check(prop, tier, n_runs=None, jobs=None):
     for v in batch.violations:
         n_viol += 1
         seen_classes.setdefault(v['invariant'], []).append(v)
+    for v in confirmed_timeouts:
+        n_viol += 1
+        path = replay_path(prop, seed, v['run'], '-timeout')
+        write_replay(path, prop, seed, v['run'], v['hashclass'], v['program'], v,
+                     {'ops': len(v['program']['ops']), 'executions': 3, 'note': 'not minimised (every attempt '
+                      'costs a full wall guard)'}, 'timeout')
+        out("violation: property=%s invariant=operation-terminates run=%d seed=%d: the program never finished, "
+            "three times out of three, in fresh workers" % (prop, v['run'], seed))
+        lines.append("VIOLATION property=%s replay=%s" % (prop, path))
     known_only = 0
     for i, (inv, vs) in enumerate(sorted(seen_classes.items(), key=lambda kv: kv[1][0]['run'])):
         kind, line = report_violation(prop, seed, vs[0], findings, minimise=(i < MAX_MINIMISED))
